@@ -149,7 +149,8 @@ inductive Fate | queued | held | replied (v : Nat) | dropped
 structure Snap where
   status : Status
   sup : Option Nat
-  inKids : Bool      -- it is in some actor's child set
+  inKids : Bool      -- it is in the child set of its supervisor
+  foreign : Bool := false   -- it is in the child set of an actor that is NOT its supervisor (never, in the model)
   nameHeld : Bool    -- the registry maps its name to it
   ngroups : Nat      -- number of process groups it is a member of
   deriving DecidableEq, Repr, Inhabited
@@ -1188,6 +1189,12 @@ def next (me : Nat) (s : St) : Ev → Except String St
     if !s.aborted then .error "c04.join-cancelled"
     else if s.sup.isSome && !s.terminalEmitted then .error "c04.missing-terminal" else .ok s
   | .join .panic => .error "c04.join-panic"   -- the join handle must complete normally
+  -- the link transaction: an actor is in its supervisor's child set and in nobody else's (at every op
+  -- boundary: after `link`/`unlink`, a spawn, a supervisor's `terminate()`, its own exit)
+  | .snap sn =>
+    if sn.foreign then .error "c04.in-foreign-child-set"
+    else if sn.inKids != sn.sup.isSome then .error "c04.child-set-mismatch"
+    else .ok s
   | _ => .ok s
 
 /-- The property as stated. -/
